@@ -18,13 +18,13 @@ Proof. apply check_cond_model. Qed.
 (* the hypotheses of the theorems are met by concrete schedules *)
 Example ex_event_set_then_timer_same_iteration :
   map (fun es => map returned (e_waits (snd es)))
-      (erun event_init [EWait true; EDrain; ESet; EFire 0; EDrain; EDrain])
+      (erun event_init [EWait TZeroInt; EDrain; ESet; EFire 0; EDrain; EDrain])
   = [[RPending]; [RPending]; [RPending]; [RTimeout]; [RTimeout]; [RTimeout]].
 Proof. reflexivity. Qed.
 
 Example ex_event_set_then_iteration :
   map (fun es => map returned (e_waits (snd es)))
-      (erun event_init [EWait true; EWait false; ESet; EDrain; EFire 0])
+      (erun event_init [EWait TZeroInt; EWait TNone; ESet; EDrain; EFire 0])
   = [[RPending]; [RPending; RPending]; [RPending; ROk]; [ROk; ROk]; [ROk; ROk]].
 Proof. reflexivity. Qed.
 
@@ -32,14 +32,45 @@ Example ex_event_reachable_pending_timed :
   exists s x, ereachable s /\ e_value s = false /\ nth_error (e_waits s) 0 = Some x
               /\ w_inner x = IPending /\ w_outer x = Some OPending.
 Proof.
-  exists (efinal event_init (erun event_init [EWait true; EDrain])). eexists.
-  split; [exists [EWait true; EDrain]; reflexivity|]. repeat split; reflexivity.
+  exists (efinal event_init (erun event_init [EWait TZeroInt; EDrain])). eexists.
+  split; [exists [EWait TZeroInt; EDrain]; reflexivity|]. repeat split; reflexivity.
 Qed.
 
 Example ex_cond_notify :
-  map fst (crun cond_init [CWait false; CWait true; CWait false; CWait false; CDrain; CFire 1; CNotify 2; CNotifyAll])
+  map fst (crun cond_init [CWait TNone; CWait TDelta; CWait TNone; CWait TNone; CDrain; CFire 1; CNotify 2; CNotifyAll])
   = [CvWaiting 0; CvWaiting 1; CvWaiting 2; CvWaiting 3; CvNone; CvTimedOut 1; CvWoke [0; 2]; CvWoke [3]]%nat.
 Proof. reflexivity. Qed.
 
-Example ex_cond_reachable : creachable (cfinal cond_init (crun cond_init [CWait false; CWait true; CNotify 1])).
-Proof. exists [CWait false; CWait true; CNotify 1]. reflexivity. Qed.
+Example ex_cond_reachable : creachable (cfinal cond_init (crun cond_init [CWait TNone; CWait TDelta; CNotify 1])).
+Proof. exists [CWait TNone; CWait TDelta; CNotify 1]. reflexivity. Qed.
+
+(* ---------- every non-None timeout (including 0, 0.0, timedelta(0)) is a deadline ---------- *)
+Lemma cond_any_timeout_is_a_deadline s t :
+  t <> TNone ->
+  let w := List.length (s_futs s) in
+  let s1 := fst (cstep s (CWait t)) in
+  snd (cstep s (CWait t)) = CvWaiting w
+  /\ nth_error (s_futs s1) w = Some (Pending, true)
+  /\ snd (cstep s1 (CFire w)) = CvTimedOut w.
+Proof.
+  intros Ht w s1. unfold s1, w. simpl.
+  assert (T : timed_of t = true) by (destruct t; auto; congruence). rewrite T.
+  assert (E : nth_error (s_futs s ++ [(Pending, true)]) (List.length (s_futs s)) = Some (Pending, true)).
+  { rewrite C33.ListFacts.nth_error_snoc, Nat.ltb_irrefl, Nat.eqb_refl. reflexivity. }
+  split; auto. split; auto. unfold do_fire. simpl. rewrite E. reflexivity.
+Qed.
+
+Lemma event_any_timeout_is_a_deadline s t :
+  t <> TNone -> e_value s = false ->
+  let w := List.length (e_waits s) in
+  let s1 := fst (estep s (EWait t)) in
+  snd (estep s (EWait t)) = VWaiting w
+  /\ snd (estep s1 (EFire w)) = VTimedOut w
+  /\ exists x', nth_error (e_waits (fst (estep s1 (EFire w)))) w = Some x' /\ returned x' = RTimeout.
+Proof.
+  intros Ht V w s1. unfold s1, w. simpl. unfold e_wait. rewrite V. simpl.
+  assert (T : timed_of t = true) by (destruct t; auto; congruence). rewrite T.
+  split; auto. unfold e_fire. simpl.
+  rewrite C33.ListFacts.nth_error_snoc, Nat.ltb_irrefl, Nat.eqb_refl. simpl. split; auto.
+  eexists. split; [apply C33.ListFacts.nth_error_set_eq; rewrite app_length; simpl; lia|reflexivity].
+Qed.
